@@ -28,12 +28,13 @@ def setup() -> int:
     tables.regenerate()
     rc = 0
     for prop in manifest_props():
-        code, log = common._lake(["build", common.prop_module(prop)])
+        common.build_shared()
+        code, log = common._lake(["build", common.prop_module(prop)], lock=prop)
         if code != 0:
             print(f"setup: {prop}: theorem module does not build\n{log[-2000:]}")
             rc = 2
         if common.has_driver(prop):
-            code, log = common._lake(["build", common.driver_name(prop)])
+            code, log = common._lake(["build", common.driver_name(prop)], lock=prop)
             if code != 0:
                 print(f"setup: {prop}: driver does not build\n{log[-2000:]}")
                 rc = 2
